@@ -1,0 +1,34 @@
+//! Re-exports of crate-private modules for the external verification harness.
+//!
+//! Compiled only with `--cfg s3s_verif`; adds no behaviour.
+
+pub mod http {
+    pub use crate::http::*;
+}
+
+pub mod ops {
+    pub use crate::ops::*;
+
+    /// `ops::serialize_error` is `pub(crate)`
+    ///
+    /// # Errors
+    /// Returns an error if the error document cannot be serialized.
+    pub fn serialize_error(e: crate::S3Error, no_decl: bool) -> crate::S3Result<crate::http::Response> {
+        crate::ops::serialize_error(e, no_decl)
+    }
+}
+
+pub mod sig_v4 {
+    pub use crate::sig_v4::*;
+}
+
+pub mod sig_v2 {
+    pub use crate::sig_v2::*;
+}
+
+pub mod utils {
+    pub use crate::utils::crypto;
+    pub use crate::utils::format;
+    pub use crate::utils::parser;
+    pub use crate::utils::{is_base64_encoded, stable_sort_by_first};
+}
